@@ -352,5 +352,7 @@ func encodeComponent(s string) (string, bool) {
 	if strings.Contains(s, "/") {
 		return base64.RawURLEncoding.EncodeToString([]byte(s)), true
 	}
-	return url.QueryEscape(s), false
+	// url.QueryEscape encodes a space as '+', which is only decoded back to
+	// a space in query strings but stays a '+' in a path component.
+	return strings.ReplaceAll(url.QueryEscape(s), "+", "%20"), false
 }
